@@ -1,9 +1,11 @@
 """C08 - ADF parsers return the file's numbers under the documented conventions (inputs property).
 
-case (JSON file description) -> independent writer (vf/oracles/adf_writers.py) -> text file in a temp ADAS tree
+case (JSON file description + call forms) -> independent writer (vf/oracles/adf_writers.py) -> text file in a temp ADAS tree
   -> parse_adfXX                      == the written numbers (file units, documented axis order / block keys)
-  -> install_adfXX(repository_path=T) -> repository.get_*(T) == the written numbers after the documented conversions
-  -> nothing may appear under $HOME (redirected before cherab.openadas is imported)
+  -> install_adfXX / install_files    -> repository.get_* == the written numbers after the documented conversions
+  -> re-use: a second file parsed / installed in between, first results intact, repeated calls bit-identical, returned
+     arrays not aliased, source file and caller's configuration untouched
+  -> nothing may appear under $HOME (redirected before cherab.openadas is imported) unless repository_path was omitted
 """
 import atexit
 import contextlib
@@ -29,9 +31,11 @@ from cherab.core.atomic import elements as E  # noqa: E402
 from cherab.openadas import install as I  # noqa: E402
 from cherab.openadas import parse as P  # noqa: E402
 from cherab.openadas import repository as R  # noqa: E402
+from cherab.openadas.parse import utility as U  # noqa: E402
 
 ID = "C08"
 SHARDS = {"quick": 8, "thorough": 16}
+DEFAULT_ROOT = os.path.join(_SCRATCH_HOME, ".cherab", "openadas", "repository")
 
 # Open findings whose input class is excluded by construction in the generators while open.  VERIF_NO_EXCLUDE=<id>[,<id>]
 # (or "all") switches an exclusion off by hand (to confirm a proposed fix on a scratch copy); it can only make the check stricter.
@@ -46,42 +50,86 @@ EXCLUDE_LINE4 = _excluded("C08-adf11-negative-line4")      # unresolved ADF11, <
 EXCLUDE_CHEXC = _excluded("C08-adf15-chexc-default-repo")  # install_adf15 of a file holding CHEXC blocks
 EXCLUDE_HEADER = _excluded("C08-header-unchecked")         # adf12/15/21/22 file requested under another element / charge
 
-RULE = ("One case = JSON description of one ADAS file: format/class, element(s), grid sizes drawn from 1..40 (uniform mixed with "
-        "1,7,8,9,15,16,17,24,25,32,33,40), 1..Z charge-state blocks (ADF11; any Z1 sub-range; size cap 9000 values) or 1..8 (ADF15) / 1..6 (ADF12) transition blocks, "
-        "header style variants, and an integer seed; every number of the file is a pure function (splitmix64) of the seed, drawn "
+RULE = ("One case = JSON description of one ADAS file plus the call forms: format/class, species (elements; isotopes where the API "
+        "documents Element/Isotope), grid sizes drawn from 1..40 (uniform mixed with 1,2,7,8,9,15,16,17,24,25,32,33,40), 1..Z "
+        "charge-state blocks (ADF11; any Z1 sub-range; a quarter of the cases force >= 10 blocks, i.e. two-digit Z1) or 1..8 "
+        "(ADF15) / 1..6 (ADF12) transition blocks, header style variants, value mode (random / constant / ties / edge values "
+        "-99.99999, 0, 99.99999) and an integer seed; every number of the file is a pure function (splitmix64) of the seed, drawn "
         "on the lattice of the printed precision (F10.5: k*1e-5; 1PE9.2 / 1PD10.2 / 1PE10.3: integer mantissa and exponent), so the "
-        "text is exact. Sub-checks: adf11 (scd/acd/ccd/plt/prb/prc, resolved and unresolved), adf15 (hydrogen / hydrogen-like / "
-        "full-configuration comment index, auto-detected or forced with header_format, EXCIT/RECOM/CHEXC), adf12, adf2x (adf21, "
-        "adf22 bmp, adf22 bme), negative (ADF11 element name / Z header mismatch, ADF15 index entry without data block, and - generated only "
-        "while finding C08-header-unchecked is not open - an ADF12/15/21/22 file requested under another element or charge than its "
-        "header states: parse_* and install_* must raise, the repository must stay empty). Every positive "
-        "case checks parse_adf*, install_adf* + repository.get_* (+ RuntimeError for neighbouring absent keys) and that $HOME "
-        "stays empty. Non-trivial = a grid size that is not a multiple of the per-line count (8; ADF12: 6), or >= 2 blocks, or a "
-        "resolved ADF11 file, or first temperature < 1 eV (negative log10).")
+        "text is exact. Call forms: install_adf* directly (keyword or positional arguments) or through install_files (key in "
+        "lower/upper/mixed case), download omitted / False / True with the file under adas_path / True with the file in "
+        "<repository>/_download_cache, repository_path explicit or omitted (default under the scratch HOME), charges as int or "
+        "numpy.int64, transitions as ints or strings. Sub-checks: adf11 (scd/acd/ccd/plt/prb/prc, resolved and unresolved, ccd "
+        "donors H/D/He), adf15 (hydrogen / hydrogen-like / full-configuration comment index, auto-detected or forced with "
+        "header_format - also against the automatic choice -, EXCIT/RECOM/CHEXC), adf12, adf2x (adf21, adf22 bmp, adf22 bme, "
+        "parse_adas2x_rate and readvalues called directly), negative (ADF11 header mismatch: other element / name only / Z only / "
+        "isotope requested for an element file; ADF15 index entry without data block; file_path that does not exist for each of "
+        "the 11 install_* and install_files; and - generated only while finding C08-header-unchecked is not open - an "
+        "ADF12/15/21/22 file requested under another element or charge than its header states: parse_* and install_* must raise, "
+        "the repository must stay empty). Every positive case checks parse_adf*, install + repository.get_* (+ RuntimeError for "
+        "neighbouring absent keys), then a second, different file is parsed and installed (ADF11: into the same repository, "
+        "disjoint Z1 range of the same class when there is room) and the first file's parse result and repository tables must be "
+        "intact, a repeated parse / get bit-identical, returned arrays unaliased (poisoned, then re-read), the source file's bytes "
+        "and the install_files configuration unchanged, and $HOME empty whenever repository_path was given. Non-trivial = a grid "
+        "size that is not a multiple of the per-line count (8; ADF12: 6), or >= 2 blocks, or a resolved ADF11 file, or first "
+        "temperature < 1 eV (negative log10).")
 ASSUMPTIONS = ["the writers reproduce the published ADAS FORMAT statements; no real ADAS file is available offline",
                "header lines of ADF12/21/22, the ADF15 block header and the ADF15 comment index are reconstructed and agree with the "
                "parser's column constants / regexes by construction (corroborated by, not independent of, the parser)",
                "resolved ADF11 files carry one (IPRT, IGRD) block per Z1 (the parser's output has no metastable axis)",
-               "ADF11 log10 values stay within F10.5 with a blank separator (|x| < 1000); ADF12/21/22 numbers are positive",
-               "every ADF file ends with the customary 'C----' comment trailer",
+               "ADF11 log10 values stay within F10.5 with a blank separator (|x| < 100); ADF12/21/22 numbers are positive",
+               "every ADF file ends with the customary 'C----' comment trailer; coordinate grids are strictly increasing",
                "HOME redirection before import captures every write that ignores repository_path"]
 TOLERANCES = {"all tables": "1e-12 relative, element-wise: both sides convert the same decimal text to binary (correctly rounded), the "
-                            "conversions are one multiplication (x1e6, x1e-6, /10) or one pow (10**x): <= a few ulp (2.2e-16) apart"}
-REQUIRED_LABELS = ["adf11:resolved", "adf11:unresolved", "adf11:te<1eV", "adf15:style:hydrogen", "adf15:style:hydrogen-like",
-                   "adf15:style:full", "adf15:type:EXCIT", "adf15:type:RECOM", "adf15:type:CHEXC", "adf2x:adf21", "adf2x:bmp",
-                   "adf2x:bme", "negative:adf11-element", "negative:adf15-absent"]
+                            "conversions are one multiplication (x1e6, x1e-6, /10) or one pow (10**x): <= a few ulp (2.2e-16) apart",
+              "re-use": "bit-identical (same function, same file)"}
+
+_FORM_LABELS = ["via:direct", "via:files", "call:kw", "call:pos", "dl:false", "dl:omit", "dl:true-adas", "dl:cache", "repo:explicit",
+                "repo:default"]
+REQUIRED_LABELS = (
+    ["adf11:" + x for x in ["resolved", "unresolved", "te<1eV", "nd<=8", "blocks>=10", "second:same-class", "second:other-class",
+                            "donor:hydrogen", "donor:deuterium", "donor:helium", "vmode:const", "vmode:edge", "vmode:ties",
+                            "ep:parse_adf11", "ep:install_files"] + _FORM_LABELS
+     + ["ep:install_adf11" + c for c in ("scd", "acd", "ccd", "plt", "prb", "prc")]
+     + ["ep:get:" + c for c in ("scd", "acd", "ccd", "plt", "prb", "prc")]]
+    + ["adf15:" + x for x in ["style:hydrogen", "style:hydrogen-like", "style:full", "type:EXCIT", "type:RECOM", "type:CHEXC",
+                              "hf:given", "hf:differs-from-auto", "hf:differs-from-auto+install", "species:isotope", "q:np",
+                              "ep:parse_adf15", "ep:install_adf15", "ep:install_files", "mode:Hlike-bnd"] + _FORM_LABELS]
+    + ["adf12:" + x for x in ["ep:parse_adf12", "ep:install_adf12", "ep:install_files", "species:isotope", "q:np", "count:max"]
+       + _FORM_LABELS]
+    + ["adf2x:" + x for x in ["adf21", "bmp", "bme", "ep:parse_adf21", "ep:parse_adf22bmp", "ep:parse_adf22bme",
+                              "ep:install_adf21", "ep:install_adf22bmp", "ep:install_adf22bme", "ep:install_files",
+                              "ep:parse_adas2x_rate", "ep:readvalues", "species:isotope", "q:np", "tr:str"] + _FORM_LABELS]
+    + ["negative:" + x for x in ["adf11-element", "adf15-absent", "missing-file", "adf11-how:other", "adf11-how:name", "adf11-how:z",
+                                 "adf11-how:isotope"]])
 
 RTOL = 1e-12
 
 # ---------------------------------------------------------------------------------------------- small helpers
 NAMES = ["hydrogen", "helium", "lithium", "beryllium", "boron", "carbon", "nitrogen", "oxygen", "fluorine", "neon", "argon",
          "krypton", "tungsten"]
-EL = {n: getattr(E, n) for n in NAMES}
-SIZES = [1, 7, 8, 9, 15, 16, 17, 24, 25, 32, 33, 40]
+ISOTOPES = ["deuterium", "tritium", "helium3"]
+EL = {n: getattr(E, n) for n in NAMES + ISOTOPES}
+_Z = {n: EL[n].atomic_number for n in EL}
+SIZES = [1, 2, 7, 8, 9, 15, 16, 17, 24, 25, 32, 33, 40]
 _size = st.one_of(st.integers(1, 40), st.sampled_from(SIZES), st.integers(1, 12))
 _seed = st.integers(0, 2 ** 32 - 1)
 TRAILER = ["C", "C  Written by the C08 oracle (vf/oracles/adf_writers.py); numbers are synthetic.", "C",
            "C  PRODUCER : verif", "C  DATE     : 28/09/26", "C"]
+_forms = st.fixed_dictionaries({"via": st.sampled_from(["direct", "direct", "files"]), "call": st.sampled_from(["kw", "pos"]),
+                                "dl": st.sampled_from(["false", "omit", "true-adas", "cache"]),
+                                "repo": st.sampled_from(["explicit", "explicit", "default"]),
+                                "key": st.sampled_from(["lower", "upper", "mixed"])})
+PLAIN = {"via": "direct", "call": "kw", "dl": "false", "repo": "explicit", "key": "lower"}
+
+
+def _hsym(sp):
+    """symbol written in a file header: that of the chemical element"""
+    return getattr(sp, "element", sp).symbol.upper()
+
+
+def _q(c, form):
+    return np.int64(c) if form == "np" else int(c)
 
 
 def _vals(tokens):
@@ -123,6 +171,40 @@ def _item(ctx, d, k, what):
         ctx.fail(what, "entry %r is missing (%s: %s); has %r" % (k, type(e).__name__, e, sorted(map(str, d.keys())) if hasattr(d, "keys") else d))
 
 
+def _snap(x):
+    """hashable, bit-exact picture of a nested result (dict / list / tuple / ndarray / scalar)"""
+    if hasattr(x, "items"):
+        return tuple(sorted(((repr(k), _snap(v)) for k, v in x.items())))
+    if isinstance(x, (list, tuple)):
+        return tuple(_snap(v) for v in x)
+    if isinstance(x, np.ndarray):
+        return (x.shape, str(x.dtype), np.ascontiguousarray(x).tobytes())
+    if isinstance(x, (float, np.floating)):
+        return ("f", np.float64(x).tobytes())
+    return repr(x)
+
+
+def _poison(x):
+    """overwrite every array of a result in place (the caller scribbling on what it was handed)"""
+    if hasattr(x, "items"):
+        for v in x.values():
+            _poison(v)
+    elif isinstance(x, (list, tuple)):
+        for v in x:
+            _poison(v)
+    elif isinstance(x, np.ndarray) and x.dtype.kind == "f" and x.flags.writeable:
+        x[...] = -12345.678
+
+
+def _reuse(ctx, what, first, snap, again):
+    """`first` was produced before other calls, `again` by repeating the call now"""
+    ctx.check(_snap(first) == snap, what + "/first-result-intact", "the result of the first call changed while another file was processed")
+    s2 = _snap(again)
+    ctx.check(s2 == snap, what + "/repeat", "repeating the first call does not reproduce its result bit for bit")
+    _poison(first)
+    ctx.check(_snap(again) == s2, what + "/aliasing", "two calls returned arrays sharing memory (writing into one result changed the other)")
+
+
 def _no_stray(ctx, what):
     p = os.path.join(_SCRATCH_HOME, ".cherab")
     if os.path.exists(p):
@@ -145,26 +227,99 @@ def _files(root):
     return sorted(out)
 
 
-@contextlib.contextmanager
-def _workspace(rel, text):
-    """temp dir with adas/<rel> holding the file and an empty repo/; yields (adas_root, repo_path, absolute file path)"""
-    top = tempfile.mkdtemp(prefix="vf_c08_")
-    try:
-        adas, repo = os.path.join(top, "adas"), os.path.join(top, "repo")
-        path = os.path.join(adas, rel)
-        os.makedirs(os.path.dirname(path))
-        os.makedirs(repo)
+class Env:
+    """temp dir with adas/, repo/ and repo2/; the file of the case sits under adas/<rel> or, for dl == 'cache', under
+    <repository>/_download_cache/<rel> (adas_path is then not passed)."""
+
+    def __init__(self, rel, text, forms):
+        self.rel, self.text, self.forms = rel, text, forms
+
+    def __enter__(self):
+        _reset_home()
+        self.top = tempfile.mkdtemp(prefix="vf_c08_")
+        self.adas, self.repo, self.repo2 = (os.path.join(self.top, n) for n in ("adas", "repo", "repo2"))
+        for p in (self.adas, self.repo, self.repo2):
+            os.makedirs(p)
+        default = self.forms["repo"] == "default"
+        self.repo_arg = None if default else self.repo          # what is passed to install_* / get_*
+        self.root = DEFAULT_ROOT if default else self.repo       # where the data must land
+        if self.forms["dl"] == "cache":
+            self.path, self.adas_arg = os.path.join(self.root, "_download_cache", self.rel), None
+        else:
+            self.path, self.adas_arg = os.path.join(self.adas, self.rel), self.adas
+        self.add(self.path, self.text)
+        return self
+
+    def add(self, path, text):
+        os.makedirs(os.path.dirname(path), exist_ok=True)
         with open(path, "w") as f:
             f.write(text)
-        yield adas, repo, path
-    finally:
-        shutil.rmtree(top, ignore_errors=True)
+
+    def second(self, rel, text):
+        p = os.path.join(self.adas, rel)
+        self.add(p, text)
+        return p
+
+    def check_sources(self, ctx):
+        with open(self.path) as f:
+            ctx.check(f.read() == self.text, "caller-owned/file", "the ADF file was modified by parse / install")
+        if self.forms["repo"] == "explicit":
+            _no_stray(ctx, "install")
+        else:
+            ctx.check(_files(self.repo) == [], "default-repo", lambda: "repository_path omitted, yet files appeared in an unrelated directory")
+
+    def __exit__(self, *a):
+        shutil.rmtree(self.top, ignore_errors=True)
+        _reset_home()
+        return False
 
 
 def _quiet(fn, *a, **k):
     """install_* print progress lines; keep the shard logs small"""
     with contextlib.redirect_stdout(io.StringIO()):
         return fn(*a, **k)
+
+
+def _spell(key, how):
+    return key.upper() if how == "upper" else key if how == "lower" else "".join(c.upper() if i % 2 else c for i, c in enumerate(key))
+
+
+def _install(ctx, fname, args, env, forms, header_format=None, rel=None, repo_arg="same"):
+    """call install_<...>(*args, file_path, ...) in the form described by `forms`; labels the entry point"""
+    rel = env.rel if rel is None else rel
+    repo = env.repo_arg if repo_arg == "same" else repo_arg
+    dl = forms["dl"]
+    download = dl in ("true-adas", "cache")
+    adas = None if dl == "cache" else env.adas
+    via = forms["via"] if header_format is None else "direct"       # install_files has no way to pass header_format
+    ctx.label("via:" + via, "call:" + forms["call"], "dl:" + dl, "repo:" + forms["repo"])
+    if via == "files":
+        ctx.label("ep:install_files")
+        key = _spell(fname.replace("install_", ""), forms["key"])
+        entry = tuple(args) + (rel,)
+        cfg = {key: (entry,)}
+        if forms["call"] == "pos":
+            _quiet(I.install_files, cfg, download, repo, adas)
+        elif dl == "omit":
+            _quiet(I.install_files, cfg, repository_path=repo, adas_path=adas)
+        else:
+            _quiet(I.install_files, configuration=cfg, adas_path=adas, repository_path=repo, download=download)
+        ctx.check(list(cfg) == [key] and len(cfg[key]) == 1 and cfg[key][0] is entry and len(entry) == len(args) + 1
+                  and all(a is b for a, b in zip(entry, tuple(args) + (rel,))), "caller-owned/configuration",
+                  "install_files modified the configuration dictionary it was given")
+        return
+    ctx.label("ep:" + fname)
+    fn = getattr(I, fname)
+    if forms["call"] == "pos":
+        extra = () if header_format is None else (header_format,)
+        _quiet(fn, *args, rel, download, repo, adas, *extra)
+    else:
+        kw = {"repository_path": repo, "adas_path": adas}
+        if dl != "omit":
+            kw["download"] = download
+        if header_format is not None:
+            kw["header_format"] = header_format
+        _quiet(fn, *args, file_path=rel, **kw)
 
 
 def _absent(ctx, what, fn, *a):
@@ -175,6 +330,18 @@ def _absent(ctx, what, fn, *a):
     except Exception as e:  # noqa
         ctx.fail(what, "reading a key the file does not hold raised %s instead of RuntimeError: %s" % (type(e).__name__, e))
     ctx.fail(what, "key %r that the file does not hold is readable after install: %r" % (a[:-1], sorted(got) if isinstance(got, dict) else got))
+
+
+def _get_twice(ctx, what, fn):
+    """read a repository entry twice: identical, and not sharing memory"""
+    with ctx.cut(what):
+        a = fn()
+        s = _snap(a)
+        b = fn()
+    ctx.check(_snap(b) == s, "reuse/" + what + "/read-twice", "the same key read twice gives different data")
+    _poison(a)
+    ctx.check(_snap(b) == s, "reuse/" + what + "/aliasing", "two reads returned arrays sharing memory")
+    return b
 
 
 def _grid_f(s, start, n, lo=1000, hi=60000):
@@ -196,7 +363,7 @@ def _grid_e(s, n, emin, emax, digits):
 
 
 # ============================================================================================== ADF11
-ADF11 = {  # class -> (charge offset w.r.t. Z1, install function, reader)
+ADF11 = {  # class -> (charge offset w.r.t. Z1, install function, reader, file name)
     "scd": (-1, "install_adf11scd", "get_ionisation_rate", "adf11/scd96/scd96_%s.dat"),
     "acd": (0, "install_adf11acd", "get_recombination_rate", "adf11/acd96/acd96_%s.dat"),
     "ccd": (0, "install_adf11ccd", "get_thermal_cx_rate", "adf11/ccd96/ccd96_%s.dat"),
@@ -204,26 +371,38 @@ ADF11 = {  # class -> (charge offset w.r.t. Z1, install function, reader)
     "prb": (0, "install_adf11prb", "get_continuum_radiated_power_rate", "adf11/prb96/prb96_%s.dat"),
     "prc": (0, "install_adf11prc", "get_cx_radiated_power_rate", "adf11/prc96/prc96_%s.dat"),
 }
+CLASSES = sorted(ADF11)
 PROJECTS = ["GCR PROJECT", "ADAS89", "JET/ADAS PROJECT"]
+EDGE = [-9999999, -100000, -1, 0, 1, 100000, 9999999]
+DONORS = [["hydrogen", 0], ["hydrogen", 0], ["deuterium", 0], ["helium", 0], ["helium", 1]]
 
 
 @st.composite
 def adf11_cases(draw):
     el = draw(st.sampled_from(NAMES))
-    z = EL[el].atomic_number
+    z = _Z[el]
     nd, nt = draw(_size), draw(_size)
-    nblk = draw(st.one_of(st.integers(1, z), st.just(z), st.integers(1, min(z, 3))))
-    nblk = max(1, min(nblk, 9000 // (nd * nt)))
     resolved = draw(st.booleans())
+    if z >= 10 and draw(st.integers(0, 3)) == 0:          # many charge states: two-digit Z1 in the block headers
+        nblk = draw(st.integers(10, min(z, 15 if resolved else 40)))
+        while nd * nt * nblk > 12000:
+            if nd >= nt:
+                nd = (nd + 1) // 2
+            else:
+                nt = (nt + 1) // 2
+    else:
+        nblk = draw(st.one_of(st.integers(1, z), st.just(z), st.integers(1, min(z, 3))))
+        nblk = max(1, min(nblk, 9000 // (nd * nt)))
     if resolved:
         nblk = min(nblk, 15)       # the line of metastable counts (16I5) stays a single line
     z1min = draw(st.one_of(st.just(1), st.integers(1, z - nblk + 1)))
     lt0 = draw(st.one_of(st.integers(-150000, -1), st.integers(0, 250000), st.sampled_from([-69897, -100000, -1, 0, 1])))
-    case = {"cls": draw(st.sampled_from(sorted(ADF11))), "el": el, "z1min": z1min, "nblk": nblk, "nd": nd, "nt": nt,
+    case = {"cls": draw(st.sampled_from(CLASSES)), "el": el, "z1min": z1min, "nblk": nblk, "nd": nd, "nt": nt,
             "resolved": resolved, "ld0": draw(st.integers(500000, 1400000)), "lt0": lt0,
             "dash": draw(st.sampled_from([71, 80])), "lead": draw(st.sampled_from(["", " "])),
             "iprt": True if resolved else draw(st.booleans()), "project": draw(st.integers(0, len(PROJECTS) - 1)),
-            "seed": draw(_seed)}
+            "vmode": draw(st.sampled_from(["random", "random", "random", "const", "ties", "edge"])),
+            "donor": draw(st.sampled_from(DONORS)), "seed": draw(_seed), "forms": draw(_forms)}
     if EXCLUDE_LINE4 and not resolved and nd <= 8 and lt0 < 0:
         case["lt0"] = -lt0
         case["excluded_known"] = True
@@ -237,10 +416,19 @@ def build_adf11(case, name=None, z=None):
     nd, nt = case["nd"], case["nt"]
     dens = [W.f10_5(k) for k in _grid_f(s, case["ld0"], nd)]
     temp = [W.f10_5(k) for k in _grid_f(s, case["lt0"], nt)]
+    vmode = case.get("vmode", "random")
+    pool = [s.between(-7400000, -300000) for _ in range(3)]
     blocks = []
     for i in range(case["nblk"]):
-        table = [[W.f10_5(s.between(-7400000, -300000) if s.between(0, 15) else s.between(-99, 500000)) for _ in range(nd)]
-                 for _ in range(nt)]
+        if vmode == "const":
+            table = [[W.f10_5(pool[0])] * nd for _ in range(nt)]
+        elif vmode == "ties":
+            table = [[W.f10_5(pool[s.between(0, 2)]) for _ in range(nd)] for _ in range(nt)]
+        elif vmode == "edge":
+            table = [[W.f10_5(EDGE[s.between(0, len(EDGE) - 1)]) for _ in range(nd)] for _ in range(nt)]
+        else:
+            table = [[W.f10_5(s.between(-7400000, -300000) if s.between(0, 15) else s.between(-99, 500000)) for _ in range(nd)]
+                     for _ in range(nt)]
         blocks.append({"z1": case["z1min"] + i, "iprt": 1, "igrd": 1, "table": table})
     d = {"z": el.atomic_number if z is None else z, "name": (name or el.name).upper(), "project": PROJECTS[case["project"]],
          "z1min": case["z1min"], "z1max": case["z1min"] + case["nblk"] - 1, "dens": dens, "temp": temp, "blocks": blocks,
@@ -249,71 +437,120 @@ def build_adf11(case, name=None, z=None):
     return d, W.write_adf11(d)
 
 
+def _second_adf11(case):
+    """a different file of the same element: the next Z1 range of the same class when there is room (it is merged into the same
+    repository file), otherwise the next class"""
+    z = _Z[case["el"]]
+    zmax = case["z1min"] + case["nblk"] - 1
+    b = dict(case, seed=case["seed"] ^ 0x5DEECE66, nd=case["nt"] % 11 + 1, nt=case["nd"] % 13 + 1, resolved=not case["resolved"],
+             iprt=True, vmode="random")
+    if EXCLUDE_LINE4:
+        b["lt0"] = abs(case["lt0"])
+    if zmax < z:
+        b.update(z1min=zmax + 1, nblk=min(z - zmax, 3))
+    else:
+        b.update(cls=CLASSES[(CLASSES.index(case["cls"]) + 1) % len(CLASSES)], z1min=1, nblk=min(z, 2))
+    return b
+
+
 def _nt_adf11(case):
     return bool(case["nd"] % 8 or case["nt"] % 8 or case["nblk"] >= 2 or case["resolved"] or case["lt0"] < 0)
 
 
-def _install_adf11(case, el, rel, adas, repo):
-    fn = getattr(I, ADF11[case["cls"]][1])
+def _args_adf11(case, el):
     if case["cls"] == "ccd":
-        return _quiet(fn, E.hydrogen, 0, el, rel, download=False, repository_path=repo, adas_path=adas)
-    return _quiet(fn, el, rel, download=False, repository_path=repo, adas_path=adas)
+        return (EL[case.get("donor", DONORS[0])[0]], case.get("donor", DONORS[0])[1], el)
+    return (el,)
 
 
 def _get_adf11(case, el, charge, repo):
     fn = getattr(R, ADF11[case["cls"]][2])
     if case["cls"] == "ccd":
-        return fn(E.hydrogen, 0, el, charge, repo)
+        return fn(EL[case.get("donor", DONORS[0])[0]], case.get("donor", DONORS[0])[1], el, charge, repo)
     return fn(el, charge, repo)
 
 
+def _check_parse_adf11(ctx, case, d, el, got, tag):
+    ctx.check(list(got.keys()) == [el], tag + "parse/element-key", lambda: "top-level keys %r, expected [%r]" % (list(got.keys()), el))
+    z1s = [b["z1"] for b in d["blocks"]]
+    ctx.check(sorted(got[el].keys()) == z1s, tag + "parse/block-keys",
+              lambda: "charge keys %r, the file has Z1 blocks %r" % (sorted(got[el].keys()), z1s))
+    want_ne, want_te = _vals(d["dens"]), _vals(d["temp"])
+    for b in d["blocks"]:
+        g = got[el][b["z1"]]
+        info = "(Z1=%d, %d densities x %d temperatures)" % (b["z1"], case["nd"], case["nt"])
+        _eq(ctx, _item(ctx, g, "ne", tag + "parse/ne"), want_ne, tag + "parse/ne", info)
+        _eq(ctx, _item(ctx, g, "te", tag + "parse/te"), want_te, tag + "parse/te", info)
+        _eq(ctx, _item(ctx, g, "rates", tag + "parse/rates"), _vals(b["table"]).T, tag + "parse/rates", info)
+
+
+def _check_repo_adf11(ctx, case, d, el, repo, tag, absent=True):
+    """10**x, cm^-3 -> m^-3, cm^3 -> m^3, charge = Z1 - 1 for scd / plt"""
+    cls, off = case["cls"], ADF11[case["cls"]][0]
+    lin_ne, lin_te = _pow10(_vals(d["dens"])) * 1e6, _pow10(_vals(d["temp"]))
+    z1s = [b["z1"] for b in d["blocks"]]
+    ctx.label("ep:get:" + cls)
+    for b in d["blocks"]:
+        q = b["z1"] + off
+        info = "(Z1=%d -> charge %d)" % (b["z1"], q)
+        g = _get_twice(ctx, tag + "get/" + cls, lambda: _get_adf11(case, el, q, repo))
+        _eq(ctx, _item(ctx, g, "ne", tag + "repo/ne"), lin_ne, tag + "repo/ne", info)
+        _eq(ctx, _item(ctx, g, "te", tag + "repo/te"), lin_te, tag + "repo/te", info)
+        _eq(ctx, _item(ctx, g, "rate", tag + "repo/rate"), _pow10(_vals(b["table"]).T) * 1e-6, tag + "repo/rate", info)
+    if absent:
+        for q in (z1s[0] + off - 1, z1s[-1] + off + 1):
+            if 0 <= q <= el.atomic_number:
+                _absent(ctx, tag + "repo/absent-charge", lambda *a: _get_adf11(case, *a), el, q, repo)
+
+
 def run_adf11(case, ctx):
-    _reset_home()
     cls = case["cls"]
     el = EL[case["el"]]
-    off = ADF11[cls][0]
+    forms = case.get("forms", PLAIN)
     d, text = build_adf11(case)
     ctx.label(cls, "resolved" if case["resolved"] else "unresolved", "blocks:%s" % min(case["nblk"], 4),
-              "nd%%8:%d" % bool(case["nd"] % 8), "nt%%8:%d" % bool(case["nt"] % 8))
+              "nd%%8:%d" % bool(case["nd"] % 8), "nt%%8:%d" % bool(case["nt"] % 8), "vmode:" + case.get("vmode", "random"))
     if case["lt0"] < 0:
         ctx.label("te<1eV")
     if case["nd"] <= 8:
         ctx.label("nd<=8")
+    if case["nblk"] >= 10:
+        ctx.label("blocks>=10")
+    if cls == "ccd":
+        ctx.label("donor:" + case.get("donor", DONORS[0])[0])
     if case.get("excluded_known"):
         ctx.label("excluded_known")
     ctx.nt(_nt_adf11(case))
-    want_ne, want_te = _vals(d["dens"]), _vals(d["temp"])
     rel = ADF11[cls][3] % el.symbol.lower()
-    with _workspace(rel, text) as (adas, repo, path):
+    case2 = _second_adf11(case)
+    d2, text2 = build_adf11(case2)
+    rel2 = "second/" + ADF11[case2["cls"]][3] % el.symbol.lower()
+    ctx.label("second:same-class" if case2["cls"] == cls else "second:other-class")
+    with Env(rel, text, forms) as env:
         # ---- parser: log10 values in file units, table indexed (density, temperature), keyed by the Z1 of the block
+        ctx.label("ep:parse_adf11")
         with ctx.cut("parse_adf11"):
-            got = P.parse_adf11(el, path)
-        ctx.check(list(got.keys()) == [el], "parse/element-key", lambda: "top-level keys %r, expected [%r]" % (list(got.keys()), el))
-        z1s = [b["z1"] for b in d["blocks"]]
-        ctx.check(sorted(got[el].keys()) == z1s, "parse/block-keys",
-                  lambda: "charge keys %r, the file has Z1 blocks %r" % (sorted(got[el].keys()), z1s))
-        for b in d["blocks"]:
-            g = got[el][b["z1"]]
-            info = "(Z1=%d, %d densities x %d temperatures)" % (b["z1"], case["nd"], case["nt"])
-            _eq(ctx, _item(ctx, g, "ne", "parse/ne"), want_ne, "parse/ne", info)
-            _eq(ctx, _item(ctx, g, "te", "parse/te"), want_te, "parse/te", info)
-            _eq(ctx, _item(ctx, g, "rates", "parse/rates"), _vals(b["table"]).T, "parse/rates", info)
-        # ---- install -> repository: 10**x, cm^-3 -> m^-3, cm^3 -> m^3, charge = Z1 - 1 for scd / plt
+            got = P.parse_adf11(el, env.path)
+        _check_parse_adf11(ctx, case, d, el, got, "")
+        snap = _snap(got)
+        path2 = env.second(rel2, text2)
+        with ctx.cut("parse_adf11(second file)"):
+            got2 = P.parse_adf11(el, path2)
+        _check_parse_adf11(ctx, case2, d2, el, got2, "second/")
+        with ctx.cut("parse_adf11(repeat)"):
+            again = P.parse_adf11(element=el, adf_file_path=env.path)
+        _reuse(ctx, "reuse/parse_adf11", got, snap, again)
+        # ---- install -> repository
         with ctx.cut("install_adf11" + cls):
-            _install_adf11(case, el, rel, adas, repo)
-        _no_stray(ctx, "install_adf11" + cls)
-        lin_ne, lin_te = _pow10(want_ne) * 1e6, _pow10(want_te)
-        for b in d["blocks"]:
-            q = b["z1"] + off
-            info = "(Z1=%d -> charge %d)" % (b["z1"], q)
-            with ctx.cut("get/" + cls):
-                g = _get_adf11(case, el, q, repo)
-            _eq(ctx, _item(ctx, g, "ne", "repo/ne"), lin_ne, "repo/ne", info)
-            _eq(ctx, _item(ctx, g, "te", "repo/te"), lin_te, "repo/te", info)
-            _eq(ctx, _item(ctx, g, "rate", "repo/rate"), _pow10(_vals(b["table"]).T) * 1e-6, "repo/rate", info)
-        for q in (z1s[0] + off - 1, z1s[-1] + off + 1):
-            if 0 <= q <= el.atomic_number:
-                _absent(ctx, "repo/absent-charge", lambda *a: _get_adf11(case, *a), el, q, repo)
+            _install(ctx, ADF11[cls][1], _args_adf11(case, el), env, forms)
+        env.check_sources(ctx)
+        _check_repo_adf11(ctx, case, d, el, env.repo_arg, "")
+        # ---- a second file into the same repository, then the first one again
+        with ctx.cut("install_adf11" + case2["cls"] + "(second file)"):
+            _install(ctx, ADF11[case2["cls"]][1], _args_adf11(case2, el), env, dict(PLAIN, repo=forms["repo"]), rel=rel2)
+        env.check_sources(ctx)
+        _check_repo_adf11(ctx, case2, d2, el, env.repo_arg, "second/", absent=False)
+        _check_repo_adf11(ctx, case, d, el, env.repo_arg, "after-second/", absent=False)
 
 
 # ============================================================================================== ADF15
@@ -329,8 +566,8 @@ def adf15_cases(draw, absent=False, modes=None):
         el, q = "hydrogen", 0
     else:
         # hydrogen itself is always read with the 'hydrogen' index style (element == hydrogen wins over header_format)
-        el = draw(st.sampled_from(NAMES if mode == "hf-hydrogen" else NAMES[1:]))
-        z = EL[el].atomic_number
+        el = draw(st.sampled_from(NAMES + ["deuterium", "tritium"] * 3 if mode == "hf-hydrogen" else NAMES[1:]))
+        z = _Z[el]
         q = z - 1 if mode in ("Hlike", "Hlike-bnd") else draw(st.integers(0, z - 2)) if mode == "full" else draw(st.integers(0, z - 1))
     style = {"H": "hydrogen", "Hlike": "hydrogen-like", "Hlike-bnd": "hydrogen", "full": "full", "hf-hydrogen": "hydrogen",
              "hf-hydrogen-like": "hydrogen-like"}[mode]
@@ -350,7 +587,8 @@ def adf15_cases(draw, absent=False, modes=None):
         blocks.append({"type": t, "up": up, "lo": lo, "nd": nd, "nt": nt})
     case = {"mode": mode, "el": el, "charge": q, "style": style, "nlev": nlev, "blocks": blocks,
             "unit": draw(st.sampled_from([" A", "A"])), "order": draw(st.sampled_from(["file", "reversed"])),
-            "isel0": draw(st.sampled_from([1, 1, 1, 95, 996])), "seed": draw(_seed), "install": True}
+            "isel0": draw(st.sampled_from([1, 1, 1, 95, 996])), "vmode": draw(st.sampled_from(["random", "random", "const"])),
+            "qform": draw(st.sampled_from(["int", "np"])), "seed": draw(_seed), "install": True, "forms": draw(_forms)}
     if absent:
         case["absent"] = draw(st.integers(0, len(blocks) - 1))
     elif EXCLUDE_CHEXC and any(b["type"] == "CHEXC" for b in blocks):
@@ -374,12 +612,13 @@ def _levels(s, n):
 
 
 def build_adf15(case):
-    """-> (writer description, text, expected [(class, transition, block)], wavelengths {transition: Angstrom token value})"""
+    """-> (writer description, text, expected [(class, transition, block)])"""
     s = W.Stream(case["seed"], 15)
     el = EL[case["el"]]
     levels = _levels(s, case["nlev"]) if case["style"] != "hydrogen" else []
     wl = {}
     blocks = []
+    const = case.get("vmode") == "const"
     for i, c in enumerate(case["blocks"]):
         key = (c["up"], c["lo"])
         if key not in wl:
@@ -387,15 +626,18 @@ def build_adf15(case):
         ws = W.Stream(case["seed"], 2000 + i)
         dens = [W.efmt(m, e, 2, 9) for m, e in _grid_e(ws, c["nd"], 7, 16, 2)]
         temp = [W.efmt(m, e, 2, 9) for m, e in _grid_e(ws, c["nt"], -1, 4, 2)]
-        table = [[W.efmt(ws.between(100, 999) if ws.between(0, 15) else 0, ws.between(-40, -5), 2, 9) for _ in range(c["nt"])]
-                 for _ in range(c["nd"])]
+        if const:
+            table = [[W.efmt(100, -10, 2, 9)] * c["nt"] for _ in range(c["nd"])]
+        else:
+            table = [[W.efmt(ws.between(100, 999) if ws.between(0, 15) else 0, ws.between(-40, -5), 2, 9) for _ in range(c["nt"])]
+                     for _ in range(c["nd"])]
         blocks.append({"isel": case["isel0"] + i, "type": c["type"], "wl": wl[key], "upper": c["up"], "lower": c["lo"],
                        "dens": dens, "temp": temp, "table": table, "data": case.get("absent") != i})
     order = list(range(len(blocks)))
     if case["order"] == "reversed":
         order.reverse()
-    d = {"symbol": el.symbol.upper(), "z": el.atomic_number, "charge": case["charge"], "style": case["style"], "unit": case["unit"],
-         "filmem": "pju#%s%d" % (el.symbol.lower(), case["charge"]), "levels": levels, "blocks": blocks, "index_order": order,
+    d = {"symbol": _hsym(el), "z": el.atomic_number, "charge": case["charge"], "style": case["style"], "unit": case["unit"],
+         "filmem": "pju#%s%d" % (_hsym(el).lower(), case["charge"]), "levels": levels, "blocks": blocks, "index_order": order,
          "trailer": TRAILER}
 
     def transition(b):
@@ -407,7 +649,7 @@ def build_adf15(case):
 
 
 def _rel_adf15(case):
-    sym = EL[case["el"]].symbol.lower()
+    sym = _hsym(EL[case["el"]]).lower()
     kind = "bnd" if case["mode"] == "Hlike-bnd" else "pju"
     return "adf15/pec96#%s/pec96#%s_%s#%s%d.dat" % (sym, sym, kind, sym, case["charge"])
 
@@ -416,100 +658,155 @@ def _hf(case):
     return {"hf-hydrogen": "hydrogen", "hf-hydrogen-like": "hydrogen-like"}.get(case["mode"])
 
 
+def _hf_differs(case):
+    """the forced header format is not what parse_adf15 would pick by itself for this element / charge"""
+    if case["mode"] == "hf-hydrogen":
+        return case["el"] != "hydrogen"
+    if case["mode"] == "hf-hydrogen-like":
+        return _Z[case["el"]] - case["charge"] != 1
+    return False
+
+
 def _nt_adf15(case):
     return bool(len(case["blocks"]) >= 2 or any(b["nd"] % 8 or b["nt"] % 8 for b in case["blocks"]))
 
 
+def _second_adf15(case):
+    b = dict(case, seed=case["seed"] ^ 0x2545F491, order="file", isel0=1, vmode="random",
+             blocks=[dict(c, nd=c["nt"] % 9 + 1, nt=c["nd"] % 7 + 1) for c in reversed(case["blocks"][:3])])
+    b.pop("absent", None)
+    return b
+
+
+def _check_parse_adf15(ctx, case, expected, el, q, rates, wavelengths, tag):
+    classes = sorted({c for c, _, _ in expected})
+    ctx.check(sorted(rates.keys()) == classes, tag + "parse/classes",
+              lambda: "rate classes %r, the file has %r" % (sorted(rates.keys()), classes))
+    for c in classes:
+        trs = sorted(repr(t) for cc, t, _ in expected if cc == c)
+        ctx.check(list(rates[c].keys()) == [el] and list(rates[c][el].keys()) == [q], tag + "parse/species-key",
+                  lambda: "class %s is keyed by %r / %r" % (c, list(rates[c].keys()), [list(v.keys()) for v in rates[c].values()]))
+        gt = sorted(repr(t) for t in rates[c][el][q].keys())
+        ctx.check(gt == trs, tag + "parse/transitions", lambda: "class %s holds transitions %s, the index lists %s" % (c, gt[:6], trs[:6]))
+    for c, t, b in expected:
+        g = rates[c][el][q][t]
+        info = "(%s %r, ISEL %d, %d densities x %d temperatures)" % (b["type"], t, b["isel"], len(b["dens"]), len(b["temp"]))
+        _eq(ctx, _item(ctx, g, "ne", tag + "parse/ne"), _vals(b["dens"]) * 1e6, tag + "parse/ne", info)
+        _eq(ctx, _item(ctx, g, "te", tag + "parse/te"), _vals(b["temp"]), tag + "parse/te", info)
+        _eq(ctx, _item(ctx, g, "rate", tag + "parse/rate"), _vals(b["table"]) * 1e-6, tag + "parse/rate", info)
+    want_wl = {t: (b["wl"] / 10.0) / 10.0 for _, t, b in expected}            # tenths of Angstrom -> Angstrom -> nm
+    ctx.check(list(wavelengths.keys()) == [el] and list(wavelengths[el].keys()) == [q], tag + "parse/wavelength-key",
+              lambda: "wavelengths keyed by %r" % (list(wavelengths.keys()),))
+    gw = wavelengths[el][q]
+    ctx.check(sorted(repr(t) for t in gw.keys()) == sorted(repr(t) for t in want_wl), tag + "parse/wavelength-transitions",
+              lambda: "wavelength transitions %r, index lists %r" % (sorted(map(repr, gw.keys()))[:6], sorted(map(repr, want_wl))[:6]))
+    for t, w in want_wl.items():
+        _eq(ctx, _item(ctx, gw, t, tag + "parse/wavelength"), w, tag + "parse/wavelength", "(%r)" % (t,))
+    return want_wl
+
+
+def _check_repo_adf15(ctx, case, expected, want_wl, el, q, repo, tag):
+    for c, t, b in expected:
+        info = "(%s %r)" % (b["type"], t)
+        if c == "excitation":
+            g = _get_twice(ctx, tag + "get/pec-" + c, lambda: R.get_pec_excitation_rate(el, q, t, repo))
+        elif c == "recombination":
+            g = _get_twice(ctx, tag + "get/pec-" + c, lambda: R.get_pec_recombination_rate(el, q, t, repo))
+        else:
+            g = _get_twice(ctx, tag + "get/pec-" + c, lambda: R.get_pec_thermal_cx_rate(E.hydrogen, 0, el, q + 1, t, repo))
+        _eq(ctx, _item(ctx, g, "ne", tag + "repo/ne"), _vals(b["dens"]) * 1e6, tag + "repo/ne", info)
+        _eq(ctx, _item(ctx, g, "te", tag + "repo/te"), _vals(b["temp"]), tag + "repo/te", info)
+        tab = _vals(b["table"]) * 1e-6
+        if c == "thermalcx":      # documented: donor H0, Tdon = Trec -> the table is repeated along a 2-point donor-temperature axis
+            g3, td = np.asarray(_item(ctx, g, "rate", tag + "repo/rate")), np.asarray(_item(ctx, g, "td", tag + "repo/td"))
+            ctx.check(g3.ndim == 3 and td.ndim == 1 and td.size >= 1 and g3.shape[2] == td.size, tag + "repo/rate",
+                      lambda: "thermal CX PEC has shape %r with donor temperatures of shape %r" % (g3.shape, td.shape))
+            for k in range(g3.shape[2]):
+                _eq(ctx, g3[:, :, k], tab, tag + "repo/rate", info + " donor temperature index %d" % k)
+        else:
+            _eq(ctx, _item(ctx, g, "rate", tag + "repo/rate"), tab, tag + "repo/rate", info)
+        with ctx.cut(tag + "get/wavelength"):
+            w = R.get_wavelength(el, q, t, repo)
+        _eq(ctx, w, want_wl[t], tag + "repo/wavelength", info)
+
+
 def run_adf15(case, ctx):
-    _reset_home()
     el, q = EL[case["el"]], case["charge"]
+    forms = case.get("forms", PLAIN)
+    qa = _q(q, case.get("qform", "int"))
     d, text, expected = build_adf15(case)
     ctx.label("style:" + case["style"], "mode:" + case["mode"], "blocks:%s" % min(len(case["blocks"]), 4),
-              *["type:" + t for t in sorted({b["type"] for b in case["blocks"]})])
+              "q:" + case.get("qform", "int"), *["type:" + t for t in sorted({b["type"] for b in case["blocks"]})])
+    if case["el"] in ISOTOPES:
+        ctx.label("species:isotope")
+    if _hf(case):
+        ctx.label("hf:given")
+    if _hf_differs(case):
+        ctx.label("hf:differs-from-auto")
     if case.get("excluded_known"):
         ctx.label("excluded_known")
     ctx.nt(_nt_adf15(case))
     rel = _rel_adf15(case)
-    with _workspace(rel, text) as (adas, repo, path):
+    case2 = _second_adf15(case)
+    d2, text2, expected2 = build_adf15(case2)
+    with Env(rel, text, forms) as env:
+        ctx.label("ep:parse_adf15")
         with ctx.cut("parse_adf15"):
-            rates, wavelengths = P.parse_adf15(el, q, path, header_format=_hf(case))
-        classes = sorted({c for c, _, _ in expected})
-        ctx.check(sorted(rates.keys()) == classes, "parse/classes",
-                  lambda: "rate classes %r, the file has %r" % (sorted(rates.keys()), classes))
-        for c in classes:
-            trs = sorted(repr(t) for cc, t, _ in expected if cc == c)
-            ctx.check(list(rates[c].keys()) == [el] and list(rates[c][el].keys()) == [q], "parse/species-key",
-                      lambda: "class %s is keyed by %r / %r" % (c, list(rates[c].keys()), [list(v.keys()) for v in rates[c].values()]))
-            gt = sorted(repr(t) for t in rates[c][el][q].keys())
-            ctx.check(gt == trs, "parse/transitions", lambda: "class %s holds transitions %s, the index lists %s" % (c, gt[:6], trs[:6]))
-        for c, t, b in expected:
-            g = rates[c][el][q][t]
-            info = "(%s %r, ISEL %d, %d densities x %d temperatures)" % (b["type"], t, b["isel"], len(b["dens"]), len(b["temp"]))
-            _eq(ctx, _item(ctx, g, "ne", "parse/ne"), _vals(b["dens"]) * 1e6, "parse/ne", info)
-            _eq(ctx, _item(ctx, g, "te", "parse/te"), _vals(b["temp"]), "parse/te", info)
-            _eq(ctx, _item(ctx, g, "rate", "parse/rate"), _vals(b["table"]) * 1e-6, "parse/rate", info)
-        want_wl = {t: (b["wl"] / 10.0) / 10.0 for _, t, b in expected}            # tenths of Angstrom -> Angstrom -> nm
-        ctx.check(list(wavelengths.keys()) == [el] and list(wavelengths[el].keys()) == [q], "parse/wavelength-key",
-                  lambda: "wavelengths keyed by %r" % (list(wavelengths.keys()),))
-        gw = wavelengths[el][q]
-        ctx.check(sorted(repr(t) for t in gw.keys()) == sorted(repr(t) for t in want_wl), "parse/wavelength-transitions",
-                  lambda: "wavelength transitions %r, index lists %r" % (sorted(map(repr, gw.keys()))[:6], sorted(map(repr, want_wl))[:6]))
-        for t, w in want_wl.items():
-            _eq(ctx, _item(ctx, gw, t, "parse/wavelength"), w, "parse/wavelength", "(%r)" % (t,))
+            if _hf(case):
+                rates, wavelengths = P.parse_adf15(el, qa, env.path, header_format=_hf(case))
+            else:
+                rates, wavelengths = P.parse_adf15(el, qa, env.path)          # header_format omitted: automatic choice
+        want_wl = _check_parse_adf15(ctx, case, expected, el, q, rates, wavelengths, "")
+        snap = _snap((rates, wavelengths))
+        path2 = env.second("second/" + rel, text2)
+        with ctx.cut("parse_adf15(second file)"):
+            r2, w2 = P.parse_adf15(el, q, path2, _hf(case))
+        want_wl2 = _check_parse_adf15(ctx, case2, expected2, el, q, r2, w2, "second/")
+        with ctx.cut("parse_adf15(repeat)"):
+            again = P.parse_adf15(element=el, charge=q, adf_file_path=env.path, header_format=_hf(case))
+        _reuse(ctx, "reuse/parse_adf15", (rates, wavelengths), snap, again)
         if not case["install"]:
             return
         # ---- install -> repository
+        if _hf_differs(case):
+            ctx.label("hf:differs-from-auto+install")
         with ctx.cut("install_adf15"):
-            _quiet(I.install_adf15, el, q, rel, download=False, repository_path=repo, adas_path=adas, header_format=_hf(case))
-        _no_stray(ctx, "install_adf15")
-        for c, t, b in expected:
-            info = "(%s %r)" % (b["type"], t)
-            with ctx.cut("get/pec-" + c):
-                if c == "excitation":
-                    g = R.get_pec_excitation_rate(el, q, t, repo)
-                elif c == "recombination":
-                    g = R.get_pec_recombination_rate(el, q, t, repo)
-                else:
-                    g = R.get_pec_thermal_cx_rate(E.hydrogen, 0, el, q + 1, t, repo)
-            _eq(ctx, _item(ctx, g, "ne", "repo/ne"), _vals(b["dens"]) * 1e6, "repo/ne", info)
-            _eq(ctx, _item(ctx, g, "te", "repo/te"), _vals(b["temp"]), "repo/te", info)
-            tab = _vals(b["table"]) * 1e-6
-            if c == "thermalcx":      # documented: donor H0, Tdon = Trec -> the table is repeated along a 2-point donor-temperature axis
-                g3, td = np.asarray(_item(ctx, g, "rate", "repo/rate")), np.asarray(_item(ctx, g, "td", "repo/td"))
-                ctx.check(g3.ndim == 3 and td.ndim == 1 and td.size >= 1 and g3.shape[2] == td.size, "repo/rate",
-                          lambda: "thermal CX PEC has shape %r with donor temperatures of shape %r" % (g3.shape, td.shape))
-                for k in range(g3.shape[2]):
-                    _eq(ctx, g3[:, :, k], tab, "repo/rate", info + " donor temperature index %d" % k)
-            else:
-                _eq(ctx, _item(ctx, g, "rate", "repo/rate"), tab, "repo/rate", info)
-            with ctx.cut("get/wavelength"):
-                w = R.get_wavelength(el, q, t, repo)
-            _eq(ctx, w, want_wl[t], "repo/wavelength", info)
+            _install(ctx, "install_adf15", (el, qa), env, forms, header_format=_hf(case))
+        env.check_sources(ctx)
+        _check_repo_adf15(ctx, case, expected, want_wl, el, q, env.repo_arg, "")
         # a transition the file does not hold
         have = {(c, t) for c, t, _ in expected}
         t0 = expected[0][1]
         other = (t0[0], t0[0]) if case["style"] == "full" else (t0[0] + 20, t0[1])
         if ("excitation", other) not in have:
-            _absent(ctx, "repo/absent-transition", R.get_pec_excitation_rate, el, q, other, repo)
+            _absent(ctx, "repo/absent-transition", R.get_pec_excitation_rate, el, q, other, env.repo_arg)
         for c, fn in (("excitation", R.get_pec_excitation_rate), ("recombination", R.get_pec_recombination_rate)):
             for cc, t, _ in expected:
                 if cc != c and (c, t) not in have:
-                    _absent(ctx, "repo/absent-class", fn, el, q, t, repo)
+                    _absent(ctx, "repo/absent-class", fn, el, q, t, env.repo_arg)
                     break
+        # ---- second file into another repository; the first repository must be unaffected
+        with ctx.cut("install_adf15(second file)"):
+            _install(ctx, "install_adf15", (el, q), env, PLAIN, header_format=_hf(case), rel="second/" + rel, repo_arg=env.repo2)
+        if forms["repo"] == "explicit":
+            _no_stray(ctx, "install_adf15(second file)")
+        _check_repo_adf15(ctx, case2, expected2, want_wl2, el, q, env.repo2, "second/")
+        _check_repo_adf15(ctx, case, expected, want_wl, el, q, env.repo_arg, "after-second/")
 
 
 # ============================================================================================== ADF12
 @st.composite
 def adf12_cases(draw):
-    rec = draw(st.sampled_from(NAMES[:11]))
-    z = EL[rec].atomic_number
+    rec = draw(st.sampled_from(NAMES[:11] + ["deuterium", "helium3"]))
+    z = _Z[rec]
     pairs = draw(st.lists(st.tuples(st.integers(1, 12), st.integers(1, 5)).map(lambda t: (t[0] + t[1], t[0])),
                           min_size=1, max_size=6, unique=True))
-    blocks = [{"up": u, "lo": lo, "n": [draw(st.integers(1, 24)), draw(st.integers(1, 12)), draw(st.integers(1, 24)),
-                                        draw(st.integers(1, 12)), draw(st.integers(1, 12))]} for u, lo in pairs]
-    return {"donor": draw(st.sampled_from(["hydrogen", "helium"])), "meta": draw(st.integers(1, 3)), "rec": rec,
+    cnt24 = st.one_of(st.integers(1, 24), st.sampled_from([1, 2, 6, 7, 23, 24]))
+    cnt12 = st.one_of(st.integers(1, 12), st.sampled_from([1, 2, 6, 7, 11, 12]))
+    blocks = [{"up": u, "lo": lo, "n": [draw(cnt24), draw(cnt12), draw(cnt24), draw(cnt12), draw(cnt12)]} for u, lo in pairs]
+    return {"donor": draw(st.sampled_from(["hydrogen", "helium", "deuterium"])), "meta": draw(st.integers(1, 3)), "rec": rec,
             "zr": draw(st.one_of(st.just(z), st.integers(1, z))), "blocks": blocks, "letter": draw(st.sampled_from(["D", "E"])),
-            "seed": draw(_seed)}
+            "qform": draw(st.sampled_from(["int", "np"])), "seed": draw(_seed), "forms": draw(_forms)}
 
 
 def build_adf12(case):
@@ -524,162 +821,282 @@ def build_adf12(case):
             b[k] = [W.efmt(m, e, 2, 10, L) for m, e in _grid_e(s, n, ranges[k][0], ranges[k][1], 2)]
             b["Q" + k] = [W.efmt(s.between(100, 999), s.between(-16, -7), 2, 10, L) for _ in range(n)]
         blocks.append(b)
-    d = {"receiver": EL[case["rec"]].symbol.upper(), "zr": case["zr"], "donor": EL[case["donor"]].symbol.upper(), "meta": case["meta"],
+    d = {"receiver": _hsym(EL[case["rec"]]), "zr": case["zr"], "donor": _hsym(EL[case["donor"]]), "meta": case["meta"],
          "zero": W.efmt(0, 0, 2, 10, L), "blocks": blocks, "trailer": TRAILER}
     return d, W.write_adf12(d)
 
 
 ADF12_KEYS = (("eb", "ENER", 1.0), ("ti", "TIEV", 1.0), ("ni", "DENSI", 1e6), ("z", "ZEFF", 1.0), ("b", "BMAG", 1.0),
               ("qeb", "QENER", 1e-6), ("qti", "QTIEV", 1e-6), ("qni", "QDENSI", 1e-6), ("qz", "QZEFF", 1e-6), ("qb", "QBMAG", 1e-6))
+_OTHER_DONOR = {"hydrogen": "helium", "helium": "deuterium", "deuterium": "hydrogen"}
+
+
+def _nt_adf12(case):
+    return bool(len(case["blocks"]) >= 2 or any(n % 6 for c in case["blocks"] for n in c["n"]))
+
+
+def _check_parse_adf12(ctx, d, don, meta, rec, zr, got, tag):
+    ctx.check(list(got.keys()) == [don] and list(got[don].keys()) == [rec] and list(got[don][rec].keys()) == [zr],
+              tag + "parse/species-key", lambda: "keys %r" % (list(got.keys()),))
+    trs = sorted((b["upper"], b["lower"]) for b in d["blocks"])
+    ctx.check(sorted(got[don][rec][zr].keys()) == trs, tag + "parse/transitions",
+              lambda: "transitions %r, the file has %r" % (sorted(got[don][rec][zr].keys()), trs))
+    for b in d["blocks"]:
+        t = (b["upper"], b["lower"])
+        ctx.check(list(got[don][rec][zr][t].keys()) == [meta], tag + "parse/metastable-key",
+                  lambda: "metastable keys %r" % (list(got[don][rec][zr][t].keys()),))
+        g = got[don][rec][zr][t][meta]
+        info = "(n=%d-%d)" % t
+        for key, name, f in ADF12_KEYS:
+            _eq(ctx, _item(ctx, g, key, tag + "parse/" + key), _vals(b[name]) * f, tag + "parse/" + key, info)
+        ref = _vals(b["ref"])
+        for key, w in (("ebref", ref[0]), ("tiref", ref[1]), ("niref", ref[2] * 1e6), ("zref", ref[3]), ("bref", ref[4]),
+                       ("qref", W.value(b["qefref"]) * 1e-6)):
+            _eq(ctx, _item(ctx, g, key, tag + "parse/" + key), w, tag + "parse/" + key, info)
+
+
+def _check_repo_adf12(ctx, d, don, meta, rec, zr, repo, tag):
+    for b in d["blocks"]:
+        t = (b["upper"], b["lower"])
+        lst = _get_twice(ctx, tag + "get/beam_cx", lambda: R.get_beam_cx_rates(don, rec, zr, t, repo))
+        ctx.check([m for m, _ in lst] == [meta], tag + "repo/metastables", lambda: "metastables %r, installed %r" % ([m for m, _ in lst], [meta]))
+        g = lst[0][1]
+        for key, name, f in ADF12_KEYS:
+            _eq(ctx, _item(ctx, g, key, tag + "repo/" + key), _vals(b[name]) * f, tag + "repo/" + key, "(n=%d-%d)" % t)
+        _eq(ctx, _item(ctx, g, "qref", tag + "repo/qref"), W.value(b["qefref"]) * 1e-6, tag + "repo/qref", "(n=%d-%d)" % t)
 
 
 def run_adf12(case, ctx):
-    _reset_home()
     don, rec, zr, meta = EL[case["donor"]], EL[case["rec"]], case["zr"], case["meta"]
+    forms = case.get("forms", PLAIN)
+    zra = _q(zr, case.get("qform", "int"))
     d, text = build_adf12(case)
-    ctx.label("blocks:%s" % min(len(case["blocks"]), 4), "letter:" + case["letter"])
-    ctx.nt(len(case["blocks"]) >= 2 or any(n % 6 for c in case["blocks"] for n in c["n"]))
+    ctx.label("blocks:%s" % min(len(case["blocks"]), 4), "letter:" + case["letter"], "q:" + case.get("qform", "int"))
+    if case["donor"] in ISOTOPES or case["rec"] in ISOTOPES:
+        ctx.label("species:isotope")
+    if any(c["n"][0] == 24 or c["n"][1] == 12 for c in case["blocks"]):
+        ctx.label("count:max")
+    ctx.nt(_nt_adf12(case))
     rel = "adf12/qef93#%s/qef93#%s_%s%d.dat" % (don.symbol.lower(), don.symbol.lower(), rec.symbol.lower(), zr)
-    with _workspace(rel, text) as (adas, repo, path):
+    # second file: another donor, so that it lives in another repository file
+    case2 = dict(case, donor=_OTHER_DONOR[case["donor"]], seed=case["seed"] ^ 0x1234567, blocks=[dict(c, n=[c["n"][2], c["n"][3], c["n"][0], c["n"][4], c["n"][1]]) for c in case["blocks"][:2]])
+    don2 = EL[case2["donor"]]
+    d2, text2 = build_adf12(case2)
+    with Env(rel, text, forms) as env:
+        ctx.label("ep:parse_adf12")
         with ctx.cut("parse_adf12"):
-            got = P.parse_adf12(don, meta, rec, zr, path)
-        ctx.check(list(got.keys()) == [don] and list(got[don].keys()) == [rec] and list(got[don][rec].keys()) == [zr],
-                  "parse/species-key", lambda: "keys %r" % (list(got.keys()),))
-        trs = sorted((b["upper"], b["lower"]) for b in d["blocks"])
-        ctx.check(sorted(got[don][rec][zr].keys()) == trs, "parse/transitions",
-                  lambda: "transitions %r, the file has %r" % (sorted(got[don][rec][zr].keys()), trs))
-        for b in d["blocks"]:
-            t = (b["upper"], b["lower"])
-            ctx.check(list(got[don][rec][zr][t].keys()) == [meta], "parse/metastable-key",
-                      lambda: "metastable keys %r" % (list(got[don][rec][zr][t].keys()),))
-            g = got[don][rec][zr][t][meta]
-            info = "(n=%d-%d)" % t
-            for key, name, f in ADF12_KEYS:
-                _eq(ctx, _item(ctx, g, key, "parse/" + key), _vals(b[name]) * f, "parse/" + key, info)
-            ref = _vals(b["ref"])
-            for key, w in (("ebref", ref[0]), ("tiref", ref[1]), ("niref", ref[2] * 1e6), ("zref", ref[3]), ("bref", ref[4]),
-                           ("qref", W.value(b["qefref"]) * 1e-6)):
-                _eq(ctx, _item(ctx, g, key, "parse/" + key), w, "parse/" + key, info)
+            got = P.parse_adf12(don, meta, rec, zra, env.path)
+        _check_parse_adf12(ctx, d, don, meta, rec, zr, got, "")
+        snap = _snap(got)
+        path2 = env.second("second/" + rel, text2)
+        with ctx.cut("parse_adf12(second file)"):
+            got2 = P.parse_adf12(don2, meta, rec, zr, path2)
+        _check_parse_adf12(ctx, d2, don2, meta, rec, zr, got2, "second/")
+        with ctx.cut("parse_adf12(repeat)"):
+            again = P.parse_adf12(donor_ion=don, donor_metastable=meta, receiver_ion=rec, receiver_charge=zra, adf_file_path=env.path)
+        _reuse(ctx, "reuse/parse_adf12", got, snap, again)
         with ctx.cut("install_adf12"):
-            _quiet(I.install_adf12, don, meta, rec, zr, rel, download=False, repository_path=repo, adas_path=adas)
-        _no_stray(ctx, "install_adf12")
-        for b in d["blocks"]:
-            t = (b["upper"], b["lower"])
-            with ctx.cut("get/beam_cx"):
-                lst = R.get_beam_cx_rates(don, rec, zr, t, repo)
-            ctx.check([m for m, _ in lst] == [meta], "repo/metastables", lambda: "metastables %r, installed %r" % ([m for m, _ in lst], [meta]))
-            g = lst[0][1]
-            for key, name, f in ADF12_KEYS:
-                _eq(ctx, _item(ctx, g, key, "repo/" + key), _vals(b[name]) * f, "repo/" + key, "(n=%d-%d)" % t)
-            _eq(ctx, _item(ctx, g, "qref", "repo/qref"), W.value(b["qefref"]) * 1e-6, "repo/qref", "(n=%d-%d)" % t)
+            _install(ctx, "install_adf12", (don, meta, rec, zra), env, forms)
+        env.check_sources(ctx)
+        _check_repo_adf12(ctx, d, don, meta, rec, zr, env.repo_arg, "")
+        trs = sorted((b["upper"], b["lower"]) for b in d["blocks"])
         if (40, 39) not in trs:
-            _absent(ctx, "repo/absent-transition", R.get_beam_cx_rates, don, rec, zr, (40, 39), repo)
+            _absent(ctx, "repo/absent-transition", R.get_beam_cx_rates, don, rec, zr, (40, 39), env.repo_arg)
+        with ctx.cut("install_adf12(second file)"):
+            _install(ctx, "install_adf12", (don2, meta, rec, zr), env, dict(PLAIN, repo=forms["repo"]), rel="second/" + rel)
+        env.check_sources(ctx)
+        _check_repo_adf12(ctx, d2, don2, meta, rec, zr, env.repo_arg, "second/")
+        _check_repo_adf12(ctx, d, don, meta, rec, zr, env.repo_arg, "after-second/")
 
 
 # ============================================================================================== ADF21 / ADF22
+BEAMS = ["hydrogen", "helium", "deuterium", "tritium"]
+PARSE2X = {"adf21": "parse_adf21", "bmp": "parse_adf22bmp", "bme": "parse_adf22bme"}
+INSTALL2X = {"adf21": "install_adf21", "bmp": "install_adf22bmp", "bme": "install_adf22bme"}
+
+
 @st.composite
 def adf2x_cases(draw):
-    tgt = draw(st.sampled_from(NAMES[:11]))
-    z = EL[tgt].atomic_number
-    return {"kind": draw(st.sampled_from(["adf21", "bmp", "bme"])), "beam": draw(st.sampled_from(["hydrogen", "helium"])),
+    tgt = draw(st.sampled_from(NAMES[:11] + ["deuterium", "helium3"]))
+    z = _Z[tgt]
+    return {"kind": draw(st.sampled_from(["adf21", "bmp", "bme"])), "beam": draw(st.sampled_from(BEAMS)),
             "meta": draw(st.integers(1, 4)), "tgt": tgt, "zt": draw(st.one_of(st.just(z), st.integers(1, z))),
-            "tr": draw(st.sampled_from([[3, 2], [4, 2], [2, 1], [5, 3]])), "neb": draw(_size), "ndt": draw(_size), "ntt": draw(_size),
-            "seed": draw(_seed)}
+            "tr": draw(st.sampled_from([[3, 2], [4, 2], [2, 1], [5, 3]])), "trform": draw(st.sampled_from(["int", "str"])),
+            "neb": draw(_size), "ndt": draw(_size), "ntt": draw(_size), "vmode": draw(st.sampled_from(["random", "random", "const"])),
+            "qform": draw(st.sampled_from(["int", "np"])), "seed": draw(_seed), "forms": draw(_forms)}
 
 
 def build_adf2x(case):
     s = W.Stream(case["seed"], 21)
     coef = (-12, -6) if case["kind"] != "bmp" else (-6, -1)
+    const = case.get("vmode") == "const"
 
     def tok(m, e):
         return W.efmt(m, e, 3, 10)
-    d = {"zt": case["zt"], "spec": EL[case["tgt"]].symbol.upper(), "date": "18/09/97", "code": "ADAS310",
+
+    def cf():
+        return tok(1000, coef[0]) if const else tok(s.between(1000, 9999), s.between(*coef))
+    d = {"zt": case["zt"], "spec": _hsym(EL[case["tgt"]]), "date": "18/09/97", "code": "ADAS310",
          "svref": tok(s.between(1000, 9999), s.between(*coef))[1:], "tref": tok(s.between(1000, 9999), s.between(0, 4))[1:],
          "eref": tok(s.between(1000, 9999), s.between(3, 5))[1:], "dref": tok(s.between(1000, 9999), s.between(11, 14))[1:],
          "eb": [tok(m, e) for m, e in _grid_e(s, case["neb"], 2, 6, 3)],
          "dt": [tok(m, e) for m, e in _grid_e(s, case["ndt"], 10, 15, 3)],
          "tt": [tok(m, e) for m, e in _grid_e(s, case["ntt"], 0, 4, 3)], "trailer": TRAILER}
-    d["sv"] = [[tok(s.between(1000, 9999), s.between(*coef)) for _ in range(case["neb"])] for _ in range(case["ndt"])]
-    d["svt"] = [tok(s.between(1000, 9999), s.between(*coef)) for _ in range(case["ntt"])]
+    d["sv"] = [[cf() for _ in range(case["neb"])] for _ in range(case["ndt"])]
+    d["svt"] = [cf() for _ in range(case["ntt"])]
     return d, W.write_adf2x(d)
 
 
-def run_adf2x(case, ctx):
-    _reset_home()
-    kind = case["kind"]
-    beam, tgt, zt, meta, tr = EL[case["beam"]], EL[case["tgt"]], case["zt"], case["meta"], tuple(case["tr"])
-    d, text = build_adf2x(case)
-    ctx.label(kind)
-    ctx.nt(bool(case["neb"] % 8 or case["ndt"] % 8 or case["ntt"] % 8))
-    norm = 1.0 if kind == "bmp" else 1e-6       # population coefficients are dimensionless, the other two are cm^3/s
-    want = {"e": _vals(d["eb"]), "n": _vals(d["dt"]) * 1e6, "t": _vals(d["tt"]), "sen": _vals(d["sv"]).T * norm,
+def _want_adf2x(d, norm):
+    return {"e": _vals(d["eb"]), "n": _vals(d["dt"]) * 1e6, "t": _vals(d["tt"]), "sen": _vals(d["sv"]).T * norm,
             "st": _vals(d["svt"]) * norm, "eref": W.value(d["eref"]), "nref": W.value(d["dref"]) * 1e6, "tref": W.value(d["tref"]),
             "sref": W.value(d["svref"]) * norm}
+
+
+def _parse_adf2x(kind, beam, meta, tgt, zt, tr, path, kw=False):
+    if kind == "adf21":
+        if kw:
+            return P.parse_adf21(beam_species=beam, target_ion=tgt, target_charge=zt, adf_file_path=path)
+        return P.parse_adf21(beam, tgt, zt, path)
+    if kind == "bmp":
+        if kw:
+            return P.parse_adf22bmp(beam_species=beam, beam_metastable=meta, target_ion=tgt, target_charge=zt, adf_file_path=path)
+        return P.parse_adf22bmp(beam, meta, tgt, zt, path)
+    if kw:
+        return P.parse_adf22bme(beam_species=beam, target_ion=tgt, target_charge=zt, transition=tr, adf_file_path=path)
+    return P.parse_adf22bme(beam, tgt, zt, tr, path)
+
+
+def _leaf_adf2x(ctx, kind, got, beam, meta, tgt, zt, tr, tag):
+    chain = {"adf21": [beam, tgt, zt], "bmp": [beam, meta, tgt, zt], "bme": [beam, tgt, zt, tr]}[kind]
+    g = got
+    for k in chain:
+        ctx.check(hasattr(g, "keys") and list(g.keys()) == [k], tag + "parse/keys", lambda: "unexpected key structure %r, expected chain %r" % (got, chain))
+        g = g[k]
+    return g
+
+
+def _get_adf2x(kind, beam, meta, tgt, zt, tr, repo):
+    if kind == "adf21":
+        return R.get_beam_stopping_rate(beam, tgt, zt, repo)
+    if kind == "bmp":
+        return R.get_beam_population_rate(beam, meta, tgt, zt, repo)
+    return R.get_beam_emission_rate(beam, tgt, zt, tr, repo)
+
+
+def _args_adf2x(kind, beam, meta, tgt, zt, tr):
+    return {"adf21": (beam, tgt, zt), "bmp": (beam, meta, tgt, zt), "bme": (beam, tgt, zt, tr)}[kind]
+
+
+def _nt_adf2x(case):
+    return bool(case["neb"] % 8 or case["ndt"] % 8 or case["ntt"] % 8)
+
+
+def run_adf2x(case, ctx):
+    kind = case["kind"]
+    forms = case.get("forms", PLAIN)
+    beam, tgt, zt, meta = EL[case["beam"]], EL[case["tgt"]], case["zt"], case["meta"]
+    tri = tuple(case["tr"])                                                   # canonical transition, used for reading
+    tr = tuple(str(x) for x in tri) if case.get("trform") == "str" else tri     # the form handed to parse / install
+    zta = _q(zt, case.get("qform", "int"))
+    d, text = build_adf2x(case)
+    ctx.label(kind, "q:" + case.get("qform", "int"))
+    if kind == "bme" and case.get("trform") == "str":
+        ctx.label("tr:str")
+    if case["beam"] in ISOTOPES or case["tgt"] in ISOTOPES:
+        ctx.label("species:isotope")
+    ctx.nt(_nt_adf2x(case))
+    norm = 1.0 if kind == "bmp" else 1e-6       # population coefficients are dimensionless, the other two are cm^3/s
+    want = _want_adf2x(d, norm)
     sym = (beam.symbol.lower(), tgt.symbol.lower(), zt)
     rel = {"adf21": "adf21/bms97#%s/bms97#%s_%s%d.dat" % (sym[0], sym[0], sym[1], sym[2]),
            "bmp": "adf22/bmp97#%s/bmp97#%s_%d_%s%d.dat" % (sym[0], sym[0], meta, sym[1], sym[2]),
            "bme": "adf22/bme10#%s/bme10#%s_%s%d.dat" % (sym[0], sym[0], sym[1], sym[2])}[kind]
-    with _workspace(rel, text) as (adas, repo, path):
-        with ctx.cut("parse_" + kind):
-            if kind == "adf21":
-                got = P.parse_adf21(beam, tgt, zt, path)
-                ok = list(got.keys()) == [beam] and list(got[beam].keys()) == [tgt] and list(got[beam][tgt].keys()) == [zt]
-                g = got[beam][tgt][zt] if ok else None
-            elif kind == "bmp":
-                got = P.parse_adf22bmp(beam, meta, tgt, zt, path)
-                ok = list(got.keys()) == [beam] and list(got[beam].keys()) == [meta] and list(got[beam][meta].keys()) == [tgt] \
-                    and list(got[beam][meta][tgt].keys()) == [zt]
-                g = got[beam][meta][tgt][zt] if ok else None
-            else:
-                got = P.parse_adf22bme(beam, tgt, zt, tr, path)
-                ok = list(got.keys()) == [beam] and list(got[beam].keys()) == [tgt] and list(got[beam][tgt].keys()) == [zt] \
-                    and list(got[beam][tgt][zt].keys()) == [tr]
-                g = got[beam][tgt][zt][tr] if ok else None
-        ctx.check(ok, "parse/keys", lambda: "unexpected key structure %r" % (got,))
-        info = "(%d energies x %d densities, %d temperatures)" % (case["neb"], case["ndt"], case["ntt"])
+    # second file: another beam species, so that it lives in another repository file
+    case2 = dict(case, beam=BEAMS[(BEAMS.index(case["beam"]) + 1) % len(BEAMS)], seed=case["seed"] ^ 0x7654321,
+                 neb=case["ntt"] % 9 + 1, ndt=case["neb"] % 7 + 1, ntt=case["ndt"] % 10 + 1, vmode="random")
+    beam2 = EL[case2["beam"]]
+    d2, text2 = build_adf2x(case2)
+    want2 = _want_adf2x(d2, norm)
+    info = "(%d energies x %d densities, %d temperatures)" % (case["neb"], case["ndt"], case["ntt"])
+    with Env(rel, text, forms) as env:
+        ctx.label("ep:" + PARSE2X[kind])
+        with ctx.cut(PARSE2X[kind]):
+            got = _parse_adf2x(kind, beam, meta, tgt, zta, tr, env.path)
+        g = _leaf_adf2x(ctx, kind, got, beam, meta, tgt, zt, tr, "")
         for k, w in want.items():
             _eq(ctx, _item(ctx, g, k, "parse/" + k), w, "parse/" + k, info)
-        with ctx.cut("install_" + kind):
-            if kind == "adf21":
-                _quiet(I.install_adf21, beam, tgt, zt, rel, download=False, repository_path=repo, adas_path=adas)
-            elif kind == "bmp":
-                _quiet(I.install_adf22bmp, beam, meta, tgt, zt, rel, download=False, repository_path=repo, adas_path=adas)
-            else:
-                _quiet(I.install_adf22bme, beam, tgt, zt, tr, rel, download=False, repository_path=repo, adas_path=adas)
-        _no_stray(ctx, "install_" + kind)
-        with ctx.cut("get/" + kind):
-            if kind == "adf21":
-                g = R.get_beam_stopping_rate(beam, tgt, zt, repo)
-            elif kind == "bmp":
-                g = R.get_beam_population_rate(beam, meta, tgt, zt, repo)
-            else:
-                g = R.get_beam_emission_rate(beam, tgt, zt, tr, repo)
+        snap = _snap(got)
+        # the shared reader called directly: default normalisation (1), and an explicit factor
+        ctx.label("ep:parse_adas2x_rate", "ep:readvalues")
+        with ctx.cut("parse_adas2x_rate"):
+            with open(env.path) as f:
+                raw = U.parse_adas2x_rate(f)
+            with open(env.path) as f:
+                raw2 = U.parse_adas2x_rate(f, normalisation=2.0)
+            with open(env.path) as f:
+                for _ in range(4):
+                    f.readline()
+                eb = U.readvalues(f, case["neb"], 8)
+                dt = U.readvalues(f, case["ndt"], values_per_line=8, type=float)
+        for k, w in _want_adf2x(d, 1.0).items():
+            _eq(ctx, _item(ctx, raw, k, "direct/" + k), w, "direct/" + k, info + " parse_adas2x_rate(file)")
+        for k, w in _want_adf2x(d, 2.0).items():
+            _eq(ctx, _item(ctx, raw2, k, "direct/" + k), w, "direct/" + k, info + " parse_adas2x_rate(file, normalisation=2)")
+        _eq(ctx, eb, _vals(d["eb"]), "direct/readvalues", info)
+        _eq(ctx, dt, _vals(d["dt"]), "direct/readvalues", info)
+        path2 = env.second("second/" + rel, text2)
+        with ctx.cut(PARSE2X[kind] + "(second file)"):
+            got2 = _parse_adf2x(kind, beam2, meta, tgt, zt, tri, path2)
+        g2 = _leaf_adf2x(ctx, kind, got2, beam2, meta, tgt, zt, tri, "second/")
+        for k, w in want2.items():
+            _eq(ctx, _item(ctx, g2, k, "second/parse/" + k), w, "second/parse/" + k, "")
+        with ctx.cut(PARSE2X[kind] + "(repeat)"):
+            again = _parse_adf2x(kind, beam, meta, tgt, zta, tr, env.path, kw=True)
+        _reuse(ctx, "reuse/" + PARSE2X[kind], got, snap, again)
+        # ---- install -> repository
+        with ctx.cut(INSTALL2X[kind]):
+            _install(ctx, INSTALL2X[kind], _args_adf2x(kind, beam, meta, tgt, zta, tr), env, forms)
+        env.check_sources(ctx)
+        g = _get_twice(ctx, "get/" + kind, lambda: _get_adf2x(kind, beam, meta, tgt, zt, tri, env.repo_arg))
         for k, w in want.items():
             _eq(ctx, _item(ctx, g, k, "repo/" + k), w, "repo/" + k, info)
         if zt + 1 <= tgt.atomic_number:
-            if kind == "adf21":
-                _absent(ctx, "repo/absent-charge", R.get_beam_stopping_rate, beam, tgt, zt + 1, repo)
-            elif kind == "bmp":
-                _absent(ctx, "repo/absent-charge", R.get_beam_population_rate, beam, meta, tgt, zt + 1, repo)
-            else:
-                _absent(ctx, "repo/absent-charge", R.get_beam_emission_rate, beam, tgt, zt + 1, tr, repo)
+            _absent(ctx, "repo/absent-charge", lambda *a: _get_adf2x(kind, *a), beam, meta, tgt, zt + 1, tri, env.repo_arg)
+        with ctx.cut(INSTALL2X[kind] + "(second file)"):
+            _install(ctx, INSTALL2X[kind], _args_adf2x(kind, beam2, meta, tgt, zt, tri), env, dict(PLAIN, repo=forms["repo"]), rel="second/" + rel)
+        env.check_sources(ctx)
+        g2 = _get_twice(ctx, "second/get/" + kind, lambda: _get_adf2x(kind, beam2, meta, tgt, zt, tri, env.repo_arg))
+        for k, w in want2.items():
+            _eq(ctx, _item(ctx, g2, k, "second/repo/" + k), w, "second/repo/" + k, "")
+        g = _get_twice(ctx, "after-second/get/" + kind, lambda: _get_adf2x(kind, beam, meta, tgt, zt, tri, env.repo_arg))
+        for k, w in want.items():
+            _eq(ctx, _item(ctx, g, k, "after-second/repo/" + k), w, "after-second/repo/" + k, info)
 
 
 # ============================================================================================== negative cases
 HEADER_KINDS = ("adf15-header", "adf2x-header", "adf12-header")
-_Z = {n: EL[n].atomic_number for n in NAMES}
+INSTALLERS = ["install_adf11scd", "install_adf11acd", "install_adf11ccd", "install_adf11plt", "install_adf11prb", "install_adf11prc",
+              "install_adf12", "install_adf15", "install_adf21", "install_adf22bmp", "install_adf22bme"]
+ISO_OF = {"hydrogen": ["deuterium", "tritium"], "helium": ["helium3"]}
 
 
 def _adf11_mismatch(draw):
+    how = draw(st.sampled_from(["other", "name", "z", "isotope"]))
     f = draw(adf11_cases())
-    how = draw(st.sampled_from(["other", "name", "z"]))
+    if how == "isotope":        # a consistent HYDROGEN / HELIUM file, requested as one of the element's isotopes
+        f["el"] = draw(st.sampled_from(sorted(ISO_OF)))
+        z = _Z[f["el"]]
+        f["nblk"] = min(f["nblk"], z)
+        f["z1min"] = min(f["z1min"], z - f["nblk"] + 1)
+        return {"kind": "adf11-element", "file": f, "how": how, "other": draw(st.sampled_from(ISO_OF[f["el"]]))}
     others = [n for n in NAMES if n != f["el"]]
     return {"kind": "adf11-element", "file": f, "how": how, "other": draw(st.sampled_from(others))}
 
 
 @st.composite
 def negative_cases(draw):
-    kind = draw(st.sampled_from(["adf11-element", "adf11-element", "adf15-absent", "adf15-absent"] + list(HEADER_KINDS)))
+    kind = draw(st.sampled_from(["adf11-element", "adf11-element", "adf15-absent", "adf15-absent", "missing-file"] + list(HEADER_KINDS)))
     if kind in HEADER_KINDS and EXCLUDE_HEADER:
         case = _adf11_mismatch(draw)             # class excluded while C08-header-unchecked is open
         case["excluded_known"] = True
@@ -688,6 +1105,9 @@ def negative_cases(draw):
         return _adf11_mismatch(draw)
     if kind == "adf15-absent":
         return {"kind": kind, "file": draw(adf15_cases(absent=True))}
+    if kind == "missing-file":
+        return {"kind": kind, "fn": draw(st.sampled_from(INSTALLERS)), "file": {"forms": draw(_forms)},
+                "where": draw(st.sampled_from(["no-such-file", "directory", "other-class"]))}
     how = draw(st.sampled_from(["element", "charge"]))
     if kind == "adf15-header":
         # the file is self-consistent; it is requested under another element or another charge.  Modes are limited to those
@@ -695,15 +1115,15 @@ def negative_cases(draw):
         f = draw(adf15_cases(modes=["full", "hf-hydrogen", "hf-hydrogen-like"]))
         full = f["mode"] == "full"
         charges = [c for c in range(0, _Z[f["el"]] - (1 if full else 0)) if c != f["charge"]]
-        others = [n for n in NAMES[1:] if n != f["el"] and _Z[n] - f["charge"] >= (2 if full else 1)]
+        others = [n for n in NAMES[1:] if _Z[n] != _Z[f["el"]] and _Z[n] - f["charge"] >= (2 if full else 1)]
     elif kind == "adf2x-header":
         f = draw(adf2x_cases())
         charges = [c for c in range(1, _Z[f["tgt"]] + 1) if c != f["zt"]]
-        others = [n for n in NAMES[:11] if n != f["tgt"] and _Z[n] >= f["zt"]]
+        others = [n for n in NAMES[:11] if _Z[n] != _Z[f["tgt"]] and _Z[n] >= f["zt"]]
     else:
         f = draw(adf12_cases())
         charges = [c for c in range(1, _Z[f["rec"]] + 1) if c != f["zr"]]
-        others = [n for n in NAMES[:11] if n != f["rec"] and _Z[n] >= f["zr"]]
+        others = [n for n in NAMES[:11] if _Z[n] != _Z[f["rec"]] and _Z[n] >= f["zr"]]
     if how == "charge" and not charges or not others:
         how = "element" if others else "charge"
     case = {"kind": kind, "file": f, "how": how}
@@ -714,87 +1134,96 @@ def negative_cases(draw):
     return case
 
 
-def _must_reject(ctx, what, repo, parse, install):
-    ctx.raises((Exception,), what + "/parse", parse)
-    ctx.raises((Exception,), what + "/install", _quiet, install)
-    _no_stray(ctx, what + "/install")
-    ctx.check(_files(repo) == [], what + "/install", lambda: "rejected file left %r in the repository" % (_files(repo)[:4],))
+def _must_reject(ctx, what, env, parse, install, exc=(Exception,)):
+    if parse is not None:
+        ctx.raises(exc, what + "/parse", parse)
+    ctx.raises(exc, what + "/install", install)
+    left = [p for p in _files(env.root) if not p.startswith("_download_cache")] if os.path.isdir(env.root) else []
+    ctx.check(left == [], what + "/install", lambda: "rejected file left %r in the repository" % (left[:4],))
+    if env.forms["repo"] == "explicit":
+        _no_stray(ctx, what + "/install")
+
+
+def _dummy_args(fname):
+    h, c = E.hydrogen, E.carbon
+    return {"install_adf11ccd": (h, 0, c), "install_adf12": (h, 1, c, 6), "install_adf15": (c, 1), "install_adf21": (h, c, 6),
+            "install_adf22bmp": (h, 2, c, 6), "install_adf22bme": (h, c, 6, (3, 2))}.get(fname, (c,))
 
 
 def run_negative(case, ctx):
-    _reset_home()
     kind, f = case["kind"], case["file"]
+    forms = f.get("forms", PLAIN)
     ctx.label(kind)
     if case.get("excluded_known"):
         ctx.label("excluded_known")
     if kind == "adf11-element":
-        ctx.label("how:" + case["how"])
+        ctx.label("adf11-how:" + case["how"])
         ctx.nt(_nt_adf11(f))
         el, other = EL[f["el"]], EL[case["other"]]
-        if case["how"] == "other":          # a consistent file of `el`, requested as `other`
+        if case["how"] in ("other", "isotope"):   # a consistent file of `el`, requested as `other` (another element / an isotope of el)
             (_, text), req = build_adf11(f), other
         elif case["how"] == "name":         # header: Z of `el`, name of `other`; requested as `el`
             (_, text), req = build_adf11(f, name=other.name), el
         else:                               # header: name of `el`, Z of `other`; requested as `el`
             (_, text), req = build_adf11(f, z=other.atomic_number), el
         rel = ADF11[f["cls"]][3] % req.symbol.lower()
-        with _workspace(rel, text) as (adas, repo, path):
-            _must_reject(ctx, "adf11-mismatch", repo, lambda: P.parse_adf11(req, path), lambda: _install_adf11(f, req, rel, adas, repo))
+        with Env(rel, text, forms) as env:
+            _must_reject(ctx, "adf11-mismatch", env, lambda: P.parse_adf11(req, env.path),
+                         lambda: _install(ctx, ADF11[f["cls"]][1], _args_adf11(f, req), env, forms))
     elif kind == "adf15-absent":
         ctx.nt(_nt_adf15(f))
         ctx.label("style:" + f["style"])
         el, q = EL[f["el"]], f["charge"]
         _, text, _ = build_adf15(f)
-        rel = _rel_adf15(f)
-        with _workspace(rel, text) as (adas, repo, path):
-            _must_reject(ctx, "adf15-absent-block", repo, lambda: P.parse_adf15(el, q, path, header_format=_hf(f)),
-                         lambda: I.install_adf15(el, q, rel, download=False, repository_path=repo, adas_path=adas, header_format=_hf(f)))
+        with Env(_rel_adf15(f), text, forms) as env:
+            _must_reject(ctx, "adf15-absent-block", env, lambda: P.parse_adf15(el, q, env.path, header_format=_hf(f)),
+                         lambda: _install(ctx, "install_adf15", (el, q), env, forms, header_format=_hf(f)))
+    elif kind == "missing-file":            # documented: ValueError('Could not locate the specified ADAS file.')
+        ctx.nt()
+        fn = case["fn"]
+        ctx.label("missing:" + fn, "where:" + case["where"])
+        forms = dict(forms, dl="false" if forms["dl"] in ("true-adas", "cache") else forms["dl"])     # never reach for the network
+        d, text = build_adf11({"cls": "scd", "el": "carbon", "z1min": 1, "nblk": 1, "nd": 2, "nt": 2, "resolved": False, "ld0": 800000,
+                               "lt0": 0, "dash": 80, "lead": "", "iprt": True, "project": 0, "seed": 1})
+        with Env("adf11/scd96/scd96_c.dat", text, forms) as env:
+            rel = {"no-such-file": "adf11/scd96/scd96_x.dat", "directory": "adf11/scd96", "other-class": "adf11/acd96/scd96_c.dat"}[case["where"]]
+            _must_reject(ctx, "missing-file", env, None, lambda: _install(ctx, fn, _dummy_args(fn), env, forms, rel=rel), exc=(ValueError,))
     elif kind == "adf15-header":            # header '/C + 1 PHOTON EMISSIVITY COEFFICIENTS/' requested as another element / charge
         ctx.nt(_nt_adf15(f))
         ctx.label("how:" + case["how"])
         el = EL[case["other"]] if case["how"] == "element" else EL[f["el"]]
         q = case["charge"] if case["how"] == "charge" else f["charge"]
         _, text, _ = build_adf15(f)
-        rel = _rel_adf15(f)
-        with _workspace(rel, text) as (adas, repo, path):
-            _must_reject(ctx, "adf15-header", repo, lambda: P.parse_adf15(el, q, path, header_format=_hf(f)),
-                         lambda: I.install_adf15(el, q, rel, download=False, repository_path=repo, adas_path=adas, header_format=_hf(f)))
+        with Env(_rel_adf15(f), text, forms) as env:
+            _must_reject(ctx, "adf15-header", env, lambda: P.parse_adf15(el, q, env.path, header_format=_hf(f)),
+                         lambda: _install(ctx, "install_adf15", (el, q), env, forms, header_format=_hf(f)))
     elif kind == "adf2x-header":            # header 'ZT= 6 ... SPEC=C' requested as another target element / charge
-        ctx.nt(bool(f["neb"] % 8 or f["ndt"] % 8 or f["ntt"] % 8))
+        ctx.nt(_nt_adf2x(f))
         ctx.label("how:" + case["how"], f["kind"])
         beam, meta, tr = EL[f["beam"]], f["meta"], tuple(f["tr"])
         tgt = EL[case["other"]] if case["how"] == "element" else EL[f["tgt"]]
         zt = case["charge"] if case["how"] == "charge" else f["zt"]
         _, text = build_adf2x(f)
-        rel = "adf2x/file.dat"
-        kw = {"download": False}
-        with _workspace(rel, text) as (adas, repo, path):
-            kw.update(repository_path=repo, adas_path=adas)
-            if f["kind"] == "adf21":
-                _must_reject(ctx, "adf21-header", repo, lambda: P.parse_adf21(beam, tgt, zt, path), lambda: I.install_adf21(beam, tgt, zt, rel, **kw))
-            elif f["kind"] == "bmp":
-                _must_reject(ctx, "adf22bmp-header", repo, lambda: P.parse_adf22bmp(beam, meta, tgt, zt, path),
-                             lambda: I.install_adf22bmp(beam, meta, tgt, zt, rel, **kw))
-            else:
-                _must_reject(ctx, "adf22bme-header", repo, lambda: P.parse_adf22bme(beam, tgt, zt, tr, path),
-                             lambda: I.install_adf22bme(beam, tgt, zt, tr, rel, **kw))
+        with Env("adf2x/file.dat", text, forms) as env:
+            _must_reject(ctx, PARSE2X[f["kind"]].replace("parse_", "") + "-header", env,
+                         lambda: _parse_adf2x(f["kind"], beam, meta, tgt, zt, tr, env.path),
+                         lambda: _install(ctx, INSTALL2X[f["kind"]], _args_adf2x(f["kind"], beam, meta, tgt, zt, tr), env, forms))
     else:                                   # adf12 block header ' C + 6  H + 0 (1)' requested as another receiver element / charge
-        ctx.nt(len(f["blocks"]) >= 2 or any(n % 6 for c in f["blocks"] for n in c["n"]))
+        ctx.nt(_nt_adf12(f))
         ctx.label("how:" + case["how"])
         don, meta = EL[f["donor"]], f["meta"]
         rec = EL[case["other"]] if case["how"] == "element" else EL[f["rec"]]
         zr = case["charge"] if case["how"] == "charge" else f["zr"]
         _, text = build_adf12(f)
-        rel = "adf12/file.dat"
-        with _workspace(rel, text) as (adas, repo, path):
-            _must_reject(ctx, "adf12-header", repo, lambda: P.parse_adf12(don, meta, rec, zr, path),
-                         lambda: I.install_adf12(don, meta, rec, zr, rel, download=False, repository_path=repo, adas_path=adas))
+        with Env("adf12/file.dat", text, forms) as env:
+            _must_reject(ctx, "adf12-header", env, lambda: P.parse_adf12(don, meta, rec, zr, env.path),
+                         lambda: _install(ctx, "install_adf12", (don, meta, rec, zr), env, forms))
 
 
 SUBCHECKS = {
-    "adf11": Given(adf11_cases, run_adf11, quick=320, thorough=16000),
-    "adf15": Given(adf15_cases, run_adf15, quick=240, thorough=12000),
-    "adf12": Given(adf12_cases, run_adf12, quick=80, thorough=4000),
-    "adf2x": Given(adf2x_cases, run_adf2x, quick=100, thorough=6000),
-    "negative": Given(negative_cases, run_negative, quick=60, thorough=2000),
+    "adf11": Given(adf11_cases, run_adf11, quick=320, thorough=12000),
+    "adf15": Given(adf15_cases, run_adf15, quick=240, thorough=9000),
+    "adf12": Given(adf12_cases, run_adf12, quick=96, thorough=3000),
+    "adf2x": Given(adf2x_cases, run_adf2x, quick=120, thorough=5000),
+    "negative": Given(negative_cases, run_negative, quick=96, thorough=3000),
 }
